@@ -127,7 +127,7 @@ func (w *idWorld) observe(what string) {
 	rec := w.rec
 	hwBefore := w.hw
 	// (a) put log lines, in order
-	issued := map[uint64]string{}
+	issued := map[uint64][]string{} // id -> queues of the put lines of this block
 	for _, l := range w.c.Log.Drain() {
 		if l.Msg != "put message into consensus queue" {
 			continue
@@ -166,7 +166,7 @@ func (w *idWorld) observe(what string) {
 			w.violation(sig, fmt.Sprintf("PutMessageInQueue(%s) returned id %d although ids up to %d were already committed (id %d first seen in %q)", q, id, hwBefore, id, prevQ),
 				map[string]any{"queue": q, "id": id, "high_water": hwBefore, "first_seen_in": prevQ, "during": what})
 		}
-		issued[id] = q
+		issued[id] = append(issued[id], q)
 	}
 	// (b) raw store scan
 	now := map[entry]string{}
@@ -223,9 +223,9 @@ func (w *idWorld) observe(what string) {
 			w.violation("queue-id/duplicate-across-queues", fmt.Sprintf("id %d was handed out for queue %s and now shows up in queue %s", e.ID, first, e.Queue),
 				map[string]any{"id": e.ID, "queues": []string{first, e.Queue}, "during": what})
 		}
-		if pq, viaPut := issued[e.ID]; viaPut && pq != e.Queue {
-			w.violation("queue-id/duplicate-across-queues", fmt.Sprintf("id %d was returned by PutMessageInQueue(%s) but is stored in queue %s", e.ID, pq, e.Queue),
-				map[string]any{"id": e.ID, "queues": []string{pq, e.Queue}, "during": what})
+		if pq, viaPut := issued[e.ID]; viaPut && !contains(pq, e.Queue) {
+			w.violation("queue-id/duplicate-across-queues", fmt.Sprintf("id %d was returned by PutMessageInQueue(%v) but is stored in queue %s", e.ID, pq, e.Queue),
+				map[string]any{"id": e.ID, "queues": append(append([]string{}, pq...), e.Queue), "during": what})
 		}
 		if _, viaPut := issued[e.ID]; !viaPut {
 			rec.Count("ids_new_without_put_line", 1)
@@ -250,8 +250,13 @@ func (w *idWorld) observe(what string) {
 			w.note("left store: %s #%d", e.Queue, e.ID)
 		}
 	}
-	for id, q := range issued {
-		if _, ok := now[entry{q, id}]; !ok {
+	for id, qs := range issued {
+		inStore := false
+		for _, q := range qs {
+			_, ok := now[entry{q, id}]
+			inStore = inStore || ok
+		}
+		if !inStore {
 			// created and removed within the block, or rolled back with its cache context: the
 			// id stays unconfirmed and takes no part in the reference model
 			rec.Count("ids_issued_not_in_store_at_block_end", 1)
@@ -266,7 +271,7 @@ func (w *idWorld) observe(what string) {
 	for _, je := range w.expectJob {
 		rec.Eval(1)
 		rec.Count("job_response_ids", 1)
-		if q, ok := issued[je.ID]; !ok || q != je.Queue {
+		if qs, ok := issued[je.ID]; !ok || !contains(qs, je.Queue) {
 			w.violation("queue-id/response-mismatch", fmt.Sprintf("MsgExecuteJobResponse.MessageID=%d but the put line of this block says %v", je.ID, issued),
 				map[string]any{"response_id": je.ID, "queue": je.Queue})
 		}
@@ -274,11 +279,13 @@ func (w *idWorld) observe(what string) {
 	w.expectJob = nil
 }
 
-func max64(a, b uint64) uint64 {
-	if a > b {
-		return a
+func contains(l []string, s string) bool {
+	for _, x := range l {
+		if x == s {
+			return true
+		}
 	}
-	return b
+	return false
 }
 
 func queueKind(q string) string {
